@@ -123,11 +123,24 @@ Theorem C41_replay_new_reader : forall (limit : N) (es : list (event B)),
   snd (run ipc st (ERead ROpen :: repeat (ERead (RPoll (length (sp_readers st)))) (S (length (written es os))))) =
     ORead OOpened :: map (fun b => ORead (OBatch b)) (written es os) ++ [ORead OEnd].
 Proof. exact (replay_new_reader ipc ipc_roundtrip). Qed.
+
+(* a reader opened before or during the writes (any live reader, whatever it has read so far): once
+   finish has succeeded and no error was sent, polling it yields exactly the remaining written
+   batches and then the end; together with what it received before that is the whole sequence *)
+Theorem C41_replay_drain : forall (limit : N) (es : list (event B)),
+  let '(st, os) := run ipc (init limit) es in
+  existsb is_finish_ok os = true -> existsb is_sent os = false ->
+  forall k r, nth_error (sp_readers st) k = Some r -> rd_done r = false ->
+    snd (run ipc st (repeat (ERead (RPoll k)) (S (length (written es os) - rd_read r)))) =
+      map (fun b => ORead (OBatch b)) (skipn (rd_read r) (written es os)) ++ [ORead OEnd] /\
+    delivered k es os ++ skipn (rd_read r) (written es os) = written es os.
+Proof. exact (replay_drain ipc ipc_roundtrip). Qed.
 End Replay.
 Print Assumptions C41_replay_prefix.
 Print Assumptions C41_replay_status.
 Print Assumptions C41_replay_poll.
 Print Assumptions C41_replay_new_reader.
+Print Assumptions C41_replay_drain.
 
 (* ---------------------------------------------------------------- non-vacuity / model runs *)
 (* the Rust unit test test_chunkers *)
@@ -163,8 +176,8 @@ Proof. vm_compute. reflexivity. Qed.
    second write awaits its file I/O *)
 Example C41_unit_test_spill :
   snd (run (fun b => b) (init 0)
-     [ERead ROpen; ERead (RPoll 0); EWrite [1;2;3]%N 12 []; ERead (RPoll 0); ERead (RPoll 0);
-      ERead ROpen; ERead (RPoll 1); EWrite [4;5;6]%N 24 [RPoll 0]; EFinish [RPoll 1];
+     [ERead ROpen; ERead (RPoll 0); EWrite [1;2;3]%N 12 true []; ERead (RPoll 0); ERead (RPoll 0);
+      ERead ROpen; ERead (RPoll 1); EWrite [4;5;6]%N 24 true [RPoll 0]; EFinish true [RPoll 1];
       ERead (RPoll 0); ERead (RPoll 0); ERead (RPoll 1); ERead ROpen; ERead (RPoll 2); ERead (RPoll 2); ERead (RPoll 2)])
   = [ORead OOpened; ORead OPending; OWrite SOk true []; ORead (OBatch [1;2;3]%N); ORead OPending;
      ORead OOpened; ORead (OBatch [1;2;3]%N); OWrite SOk true [OPending]; OFinish SOk [OBatch [4;5;6]%N];
